@@ -142,12 +142,26 @@ def translate_data() -> str:
         _expect(r in ops, f"AST_TO_REVERSE[{k.__name__}] unexpected: {r}")
         lines.append(f"  | {v} => {ops[r]}\n")
     out.append("Definition gen_neg_op (op : cmpop) : cmpop :=\n  match op with\n" + "".join(lines) + "  end.")
+    # the whole COMPARATOR_TO_OPERATOR table, evaluated: (operator code, a, bs, positive operator's result, negative
+    # operator's result); bs = [b] for the binary comparisons, the container for in / not in
+    codes = [ast.Eq, ast.NotEq, ast.Lt, ast.LtE, ast.Gt, ast.GtE, ast.Is, ast.IsNot, ast.In, ast.NotIn]
+    _expect(set(ncv.COMPARATOR_TO_OPERATOR) == set(codes), f"COMPARATOR_TO_OPERATOR keys: {sorted(k.__name__ for k in ncv.COMPARATOR_TO_OPERATOR)}")
+    rows = []
+    for code, k in enumerate(codes):
+        pos, neg, _ = ncv.COMPARATOR_TO_OPERATOR[k]
+        samples = [(a, (b,)) for a in (0, 1, 2, 3) for b in (0, 1, 2)] if code < 8 else [(a, bs) for a in (0, 1, 2, 3) for bs in ((), (1, 2), (0,), (2, 3))]
+        for a, bs in samples:
+            arg = bs[0] if code < 8 else bs
+            p, n = pos(a, arg), neg(a, arg)
+            _expect(isinstance(p, bool) and isinstance(n, bool), f"COMPARATOR_TO_OPERATOR[{k.__name__}] does not return a bool")
+            rows.append(f"({code}%N, {a}%Z, [{'; '.join(str(b) + '%Z' for b in bs)}], {str(p).lower()}, {str(n).lower()})")
+    out.append("Definition gen_cmp_rows : list (N * Z * list Z * bool * bool) :=\n  [" + ";\n   ".join(rows) + "].")
     return "\n".join(out)
 
 
 HEADER = """(* GENERATED by harness/translate/narrowtable.py from pyanalyze/boolability.py (ast)
    and from the running implementation (class table data). Do not edit. *)
-From Coq Require Import List.
+From Coq Require Import List ZArith NArith.
 Import ListNotations.
 Require Import PV.Narrow.Base PV.Narrow.Model.
 """
